@@ -6,6 +6,13 @@ open Gossamer Gossamer.C05
 #print axioms C05_absent
 #print axioms C05_wrong_value
 #print axioms C05_empty_claim_counterexample
+#print axioms C05_complete
+#print axioms C05_complete_map
+#print axioms C05_generate_present
 #print axioms C05_generate_absent_counterexample
+#print axioms C05_driver_generate
+#print axioms C05_driver_verify
 #print axioms Gossamer.C05.verify_sound_inj
+#print axioms Gossamer.C05.verify_complete_inj
+#print axioms Gossamer.C05.view_inj
 #print axioms Gossamer.Bridge.decode_encodeNode
